@@ -91,6 +91,24 @@ func checkPad(v *ev.Verdict, c PadCase) {
 				v.Add(P, "padding:roundtrip-mismatch", "UnpadInPlace(PadInPlace(x)) != x for len(x)=%d: got len %d", len(x), len(u))
 			}
 		})
+		if len(v.Viol) != 0 {
+			return
+		}
+		// the caller owns what PadInPlace returned (it is encrypted in place, say): whatever is
+		// written there, padding x once more from a buffer of its own gives a padded x again
+		for i := range p {
+			p[i] = 0x5A
+		}
+		buf2 := make([]byte, len(x), len(x)+c.Spare)
+		copy(buf2, x)
+		p2 := padding.PadInPlace(buf2)
+		if len(p2) == 0 || len(p2)%32 != 0 || !bytes.HasPrefix(p2, x) {
+			v.Add(P, "padding:result-shared", "after the first result was overwritten, PadInPlace of a fresh copy of x (len %d, spare %d) has length %d / no longer starts with x", len(x), c.Spare, len(p2))
+			return
+		}
+		if u2, err := padding.UnpadInPlace(p2); err != nil || !bytes.Equal(u2, x) {
+			v.Add(P, "padding:result-shared", "after the first result was overwritten, UnpadInPlace(PadInPlace(fresh copy of x)) gives len %d, %v for len(x)=%d spare=%d", len(u2), err, len(x), c.Spare)
+		}
 	})
 	if len(x)%32 == 0 || len(x)%32 >= 30 || c.Spare > 0 {
 		v.SetNT(P)
